@@ -150,6 +150,13 @@ def gen_ops(rng, n, neval, value):
     return ops
 
 
+def eff_ops(c):
+    """history as the model sees it: n_cores taken from the configuration by the constructor is an
+    initial change of cores"""
+    pre = [["cores", c["conf_cores"]]] if c.get("conf_cores") else []
+    return pre + c["ops"]
+
+
 def gen_shape_and_pids(rng):
     shape = [rng.randint(1, 3) for _ in range(rng.randint(1, 3))]
     while sum(shape) > 6:
@@ -175,7 +182,7 @@ def gen_cases(ctx):
                 cases.append({"kind": "struct", "expr": t, "free": False})
         for t in all_trees([{"j": j} for j in range(n)]):
             cases.append({"kind": "struct", "expr": t, "free": True})
-    for _ in range(80 if not thorough else 500):
+    for _ in range(80 if not thorough else 1500):
         n = rng.randint(3, 7)
         ids = list(range(n))
         rng.shuffle(ids)
@@ -185,7 +192,7 @@ def gen_cases(ctx):
         cases.append({"kind": "struct", "expr": rand_tree(rng, leafs), "free": free})
     # ---- hist
     pool_vals = [-3, -2, -1, 0, 1, 2, 3, 7]
-    for k in range(110 if not thorough else 700):
+    for k in range(110 if not thorough else 2000):
         n = rng.choice([2, 2, 3, 3, 4, 5, 6])
         ids = list(range(n))
         if rng.random() < 0.5:
@@ -200,9 +207,21 @@ def gen_cases(ctx):
         else:
             expr = rand_tree(rng, [{"j": j} for j in ids])
         ops = gen_ops(rng, n, rng.randint(3, 10), lambda: rng.choice(pool_vals))
-        cases.append({"kind": "hist", "ads": ads, "expr": expr, "ops": ops})
+        case = {"kind": "hist", "ads": ads, "expr": expr, "ops": ops}
+        if k % 6 == 5:
+            # n_cores from general.yaml (read by the constructor) instead of the setter
+            conf_cores = rng.choice([2, 3])
+            while ops and ops[0][0] == "cores":
+                ops.pop(0)
+            nproc = min(n, conf_cores)
+            for op in ops:
+                if op[0] == "cores":
+                    break
+                op[2] = gen_masks(rng, nproc)
+            case["conf_cores"] = conf_cores
+        cases.append(case)
     # ---- idx: free parameters
-    for k in range(50 if not thorough else 300):
+    for k in range(50 if not thorough else 800):
         shape, pids = gen_shape_and_pids(rng)
         n = rng.randint(2, 4)
         ids = list(range(n))
@@ -224,7 +243,7 @@ def gen_cases(ctx):
         cases.append({"kind": "idx", "ads": ads, "expr": expr, "shape": shape, "default": pids, "own": {},
                       "free": items, "ops": ops})
     # ---- idx: per-analysis models
-    for k in range(40 if not thorough else 250):
+    for k in range(40 if not thorough else 700):
         shape, pids = gen_shape_and_pids(rng)
         n = rng.randint(2, 4)
         ids = list(range(n))
@@ -381,7 +400,7 @@ def oracle(c, r):
         lv = leaves(desugar(c["expr"]))
         n = len(lv)
         cores, tainted, e = 1, False, 0
-        for op in c["ops"]:
+        for op in eff_ops(c):
             if op[0] == "cores":
                 cores, tainted = op[1], False
                 continue
@@ -415,7 +434,7 @@ def oracle(c, r):
                 out.append(("fitted model has %d parameters, |free|*n+|shared| = %d" % (r["count"], formula), set()))
         if r["classes"] == rows:
             cores, tainted, e = 1, False, 0
-            for op in c["ops"]:
+            for op in eff_ops(c):
                 if op[0] == "cores":
                     cores, tainted = op[1], False
                     continue
@@ -455,7 +474,7 @@ def case_labels(c):
     if c["kind"] in ("hist", "idx"):
         lv = leaves(desugar(c["expr"]))
         cores, tainted = 1, False
-        for op in c["ops"]:
+        for op in eff_ops(c):
             if op[0] == "cores":
                 cores, tainted = op[1], False
             elif cores > 1:
@@ -481,7 +500,7 @@ def nontrivial(c):
     if k in ("hist", "idx"):
         cores, after_raise, steered = 1, False, False
         raised = False
-        for op in c["ops"]:
+        for op in eff_ops(c):
             if op[0] == "cores":
                 cores, raised = op[1], False
             else:
@@ -541,7 +560,7 @@ def coq_case(c, r):
     residue = lambda: clist([clist([coq_res(a) for a in q]) for q in r["residue"]])
     if k == "hist":
         ops = []
-        for op in c["ops"]:
+        for op in eff_ops(c):
             if op[0] == "cores":
                 ops.append("OCores %s" % cnat(op[1]))
             else:
@@ -553,7 +572,7 @@ def coq_case(c, r):
         own = [c["own"].get(str(j), []) for j in range(n_ads)]
         free = None if c["free"] is None else effective_free(c)
         ops = []
-        for op in c["ops"]:
+        for op in eff_ops(c):
             if op[0] == "cores":
                 ops.append("ICores %s" % cnat(op[1]))
             else:
@@ -654,7 +673,8 @@ def run(ctx):
         if c["kind"] in ("hist", "idx"):
             ctx.hist("n_analyses", len(leaves(desugar(c["expr"]))))
             ctx.hist("evaluations", sum(1 for op in c["ops"] if op[0] == "eval"))
-            for op in c["ops"]:
+            ctx.hist("cores_from_config", bool(c.get("conf_cores")))
+            for op in eff_ops(c):
                 if op[0] == "cores":
                     ctx.hist("cores", op[1])
                 else:
